@@ -149,6 +149,9 @@ def dump_lines(objs):
 _PASS = [0]
 
 
+_LINES = [True]
+
+
 def load_real(data, codec, encoding, how, plan, tmpdir):
     """file bytes -> (items, reader or None, ended) through the real load_from_file"""
     import rxsci.container.json as rj
@@ -172,6 +175,8 @@ def load_real(data, codec, encoding, how, plan, tmpdir):
         state['ended'] = 'error:%s' % type(e).__name__
     try:
         with C.quiet_stdout():
+            if not _LINES[0]:
+                kw['lines'] = False        # a file that holds one document, read in one piece
             loaded = rj.load_from_file(src, **kw)
             _PASS[0] += 1
             if how == 'path' and _PASS[0] % 2 == 0:
@@ -534,10 +539,22 @@ def rnd_dict(rng, depth, nkeys):
 def rnd_case(desc):
     """everything about a random execution is derived from (seed, n, size)"""
     rng = random.Random(desc['seed'] * 1000003 + desc['n'] * 7 + {'empty': 0, 'tiny': 1, 'medium': 2,
-                                                                   'big': 3, 'aligned': 4, 'many': 5}[desc['size']])
+                                                                   'big': 3, 'aligned': 4, 'many': 5, 'single': 6}[desc['size']])
     size = desc['size']
     codec = rng.choice(['none', 'gzip', 'zstd'])
     encoding = 'utf-8'
+    _LINES[0] = True
+    if size == 'single':
+        # one object, written as usual, read back as one document (lines=False), in every encoding
+        _LINES[0] = False
+        encoding = ['utf-16', 'utf-32', 'utf-8', 'utf-16'][desc['n'] % 4]
+        obj = rnd_dict(rng, rng.choice([1, 2, 4]), rng.choice([0, 1, 3]))
+        obj['_id'] = 1
+        obj['t'] = rnd_text(rng, rng.choice([0, 5, 40]), 'wide')
+
+        def plan_whole(data, lines_b):
+            return None
+        return [obj], codec, encoding, rng.choice(['path', 'fileobj']), 'path', plan_whole, True
     if size in ('tiny', 'medium') and rng.random() < 0.12:
         encoding = 'utf-16'
     tagged = rng.random() < 0.8
@@ -627,6 +644,7 @@ def rnd_case(desc):
 
 def run_case(desc, tmpdir):
     C.use_repo()
+    _LINES[0] = True
     if desc['kind'] == 'beh':
         objs = beh_objects(desc['objs'])
         tr = record(objs, desc['codec'], 'utf-8', desc.get('dump_how', 'fileobj'),
@@ -767,8 +785,8 @@ def main(tier, replay):
                               'load_how': 'open_obj' if i % 5 == 4 else 'fileobj',
                               'dump_how': {0: 'open_obj', 1: 'path'}.get(i % 11, 'fileobj')})
     n_beh = len(cases)
-    sizes = (['empty'] * 6 + ['tiny'] * 60 + ['medium'] * 40 + ['big'] * 14 + ['aligned'] * 8 + ['many'] * 4) if not thorough else \
-            (['empty'] * 12 + ['tiny'] * 400 + ['medium'] * 300 + ['big'] * 160 + ['aligned'] * 48 + ['many'] * 16)
+    sizes = (['empty'] * 6 + ['tiny'] * 60 + ['medium'] * 40 + ['big'] * 14 + ['aligned'] * 8 + ['many'] * 4 + ['single'] * 8) if not thorough else \
+            (['empty'] * 12 + ['tiny'] * 400 + ['medium'] * 300 + ['big'] * 160 + ['aligned'] * 48 + ['many'] * 16 + ['single'] * 40)
     for n, size in enumerate(sizes):
         cases.append({'kind': 'rnd', 'seed': seed, 'n': n, 'size': size})
     traces, infos = [], []
